@@ -8,11 +8,13 @@ pub fn random_state_new() -> std::hash::RandomState {
     unsafe { std::mem::transmute::<[u64; 2], std::hash::RandomState>([0u64; 2]) }
 }
 
-/// `Vec::reserve` — real `try_reserve`, but requests >= 1 MiB are reduced to 64 bytes
-/// (Allocator::new reserves 1 MiB; a huge object makes CBMC's simplifier blow up).
+/// `Vec::reserve` — real `try_reserve`, but large requests are reduced: >= 1 MiB to 64 elements,
+/// >= 64 to 8 elements (Allocator::new reserves 1 MiB of bytes and 256 atom / pair slots). Small
+/// objects keep CBMC's per-element constant propagation (arrays <= 64 elements are field-sensitive),
+/// so nodes stored in the allocator and read back stay concrete for symex.
 /// `reserve` is only a capacity hint; growth still goes through the real amortised path.
 pub fn vec_reserve<T, A: std::alloc::Allocator>(v: &mut Vec<T, A>, additional: usize) {
-    let n = if additional >= (1 << 20) { 64 } else { additional };
+    let n = if additional >= (1 << 20) { 64 } else if additional >= 64 { 8 } else { additional };
     let _ = v.try_reserve(n);
 }
 
@@ -48,5 +50,17 @@ pub fn cpuid_count(_leaf: u32, _sub: u32) -> std::arch::x86_64::CpuidResult {
         ebx: 0,
         ecx: 0,
         edx: 0,
+    }
+}
+
+/// `Vec::extend_from_slice` — the same function written as a push loop. The std version is a memcpy
+/// of `other.len()` bytes; with a symbolic length CBMC models that as an unbounded array copy
+/// (measured: 4-16 M SAT variables for a 0..=9 byte atom). The loop is bounded by the harness
+/// unwind and checked by the unwinding assertion.
+pub fn vec_extend_from_slice<T: Clone, A: std::alloc::Allocator>(v: &mut Vec<T, A>, other: &[T]) {
+    let mut i = 0;
+    while i < other.len() {
+        v.push(other[i].clone());
+        i += 1;
     }
 }
